@@ -347,3 +347,102 @@ func init() {
 		}
 	})
 }
+
+// Size-preserving edits. A cache whose staleness test looks at the size (or at nothing) survives
+// edits that keep every length: a changed output value, sequence number, lock time, outpoint index,
+// version, or one byte of a script. After each such edit of an object whose methods have all been
+// called, every derived value must equal that of a fresh object built from the same bytes and given
+// the same edit before any of its methods ran.
+func init() {
+	type edit struct {
+		name string
+		do   func(t *tx.Tx) bool
+	}
+	edits := []edit{
+		{"an output value", func(t *tx.Tx) bool {
+			if len(t.Outputs) == 0 {
+				return false
+			}
+			t.Outputs[len(t.Outputs)-1].Value ^= 0x5555
+			return true
+		}},
+		{"a sequence number", func(t *tx.Tx) bool { t.Inputs[0].Sequence ^= 1; return true }},
+		{"the lock time", func(t *tx.Tx) bool { t.Locktime += 7; return true }},
+		{"an outpoint index", func(t *tx.Tx) bool { t.Inputs[len(t.Inputs)-1].PrevOut.Index ^= 2; return true }},
+		{"an outpoint hash byte", func(t *tx.Tx) bool { t.Inputs[0].PrevOut.Hash[5] ^= 0x10; return true }},
+		{"the version", func(t *tx.Tx) bool { t.Version ^= 3; return true }},
+		{"one byte of an input script", func(t *tx.Tx) bool {
+			for _, in := range t.Inputs {
+				if len(in.Script) > 0 {
+					in.Script[len(in.Script)-1] ^= 0x01
+					return true
+				}
+			}
+			return false
+		}},
+		{"one byte of a witness item", func(t *tx.Tx) bool {
+			for _, w := range t.Witnesses {
+				for _, it := range w {
+					if len(it) > 0 {
+						it[0] ^= 0x80
+						return true
+					}
+				}
+			}
+			return false
+		}},
+	}
+	reg("obj.edit.samesize", GoOnly, func(a []string) (string, []string) {
+		raw := unhx(a[0])
+		t, err := tx.FromBytes(raw)
+		if err != nil || len(t.Inputs) == 0 {
+			return "err", nil
+		}
+		var direct []string
+		applied := 0
+		for k, e := range edits {
+			warm := map[string]string{}
+			deriveAll("x", reflect.ValueOf(t), warm, 0) // populate whatever is memoised
+			if !e.do(t) {
+				continue
+			}
+			applied++
+			fresh, err := tx.FromBytes(raw)
+			if err != nil {
+				return "err", nil
+			}
+			for _, prior := range edits[:k+1] { // the fresh object gets every edit so far, before any method runs
+				prior.do(fresh)
+			}
+			got, want := map[string]string{}, map[string]string{}
+			deriveAll("x", reflect.ValueOf(t), got, 0)
+			deriveAll("x", reflect.ValueOf(fresh), want, 0)
+			ds := diffDerived(got, want)
+			if len(ds) > 2 {
+				ds = ds[:2]
+			}
+			for _, d := range ds {
+				direct = append(direct, "after "+e.name+" of an object was edited in place (all lengths unchanged): "+d)
+			}
+			if len(direct) > 4 {
+				break
+			}
+			// also through a clone taken after the edit
+			c := t.Clone()
+			gc := map[string]string{}
+			deriveAll("x", reflect.ValueOf(c), gc, 0)
+			if ds := diffDerived(gc, want); len(ds) > 0 {
+				direct = append(direct, "Clone() of an object after "+e.name+" was edited in place: "+ds[0])
+			}
+		}
+		return fmt.Sprintf("ok %d", applied), direct
+	})
+	for _, p := range []string{"C01", "C02", "C03"} {
+		regExtra(p, func(r *Runner) {
+			for i := 0; i < r.N(60, 1500); i++ {
+				t, _ := r.genTx(3, 3)
+				r.Do("obj.edit.samesize", []string{hx(t.Bytes())}, "object-edited-in-place-same-size", true, "")
+			}
+		})
+	}
+}
